@@ -32,11 +32,23 @@ def sampler_case(item):
     def run(rng):
         S.clear_caches()
         tree = oracle.build(s, data)
+        recorded = tree.to_dict()  # what the run loop put into the trace before handing the tree to the next move
         if cfg["move"] == "burnin":
             new = S.make_samplers(cfg, rng, td).burnin_sampler.sample_tree(tree)
         else:
             new = S.apply_move(cfg, rng, tree, td)
         probs = wellformed(new, idxs)
+        try:
+            from phyclone.tree import Tree
+
+            old = Tree.from_dict(recorded)
+            wf = wellformed(old, idxs)
+            if wf:
+                probs = list(probs) + ["the tree recorded before the move lost or gained data during the move: " + wf[0]]
+            elif oracle.abstract(old) != s:
+                probs = list(probs) + ["the tree recorded before the move changed during the move"]
+        except Exception as e:
+            probs = list(probs) + ["the tree recorded before the move no longer restores: %s" % type(e).__name__]
         # the input object handed to the move must not be left corrupted either when it is returned
         return tuple(probs), oracle.state_key(oracle.abstract(new)) if not probs else None
 
@@ -77,7 +89,7 @@ def main(tier, seed):
     chk.rule = ("(a) every state of the edit-history BFS (same grammar and bounds as C06); (b) every execution of burn-in SMC / particle Gibbs / "
                 "subtree / data-point / prune-regraft from every start tree over n<=3 data points, three proposals, outliers on/off; invariant: one "
                 "parent per clone, reachable from the virtual root, unique names, name<->index maps inverse and agreeing with payloads, payload idxs = "
-                "data lists, every data point in exactly one place, data set = the one given; non-trivial = non-empty tree / root with >= 2 results")
+                "data lists, every data point in exactly one place, data set = the one given (also for the dictionary form recorded before the move, restored after it); non-trivial = non-empty tree / root with >= 2 results")
     chk.assumptions = ["reads the Tree's slots directly (closed list: __slots__)"]
     for r in c06.runs(tier, seed):
         c06.run_one(chk, r, seed, pid="C07", make_inv=make_invariant)
